@@ -42,6 +42,18 @@ class C06(F.Spec):
                      {"n": 1, "flags": [0], "chflags": [self.cdflag()], "intypes": [2], "kind": "witness", "tags": ["kind:witness"]})
         for i in range(120 if tier == "quick" else 1200):
             yield self.gen(rng, i)
+        # a device that registers for real (the registration message is built, the channel flags are taken over from it) on a board
+        # whose relay table and channel list are ordered differently: channel 1 (countdown capable, pin 3) is switched on, then
+        # 'off for d': it is on again when d has passed; channel 2 (pin 4, active low, no countdown) stays off after 'off for d'
+        from props.c04 import reg_result
+        for k, d in enumerate([500, 1000, 3000] if tier == "quick" else [300, 500, 1000, 2000, 3000, 5000]):
+            ops = ["board mixed 0", "init -1", "sentbytes 1", "calllog 1", "netstart", "gotip", "dnsfound 10.0.0.7", "tcpup", "fire iterate",
+                   "recv " + reg_result(3, 120).hex(), "adv 200",
+                   "msg 110 " + set_value(5, 1, 0, [1]).hex(), "adv 300", "msg 110 " + set_value(6, 2, 0, [1]).hex(), "adv 300",
+                   "msg 110 " + set_value(7, 1, d, [0]).hex(), "adv 100", "msg 110 " + set_value(8, 2, d, [0]).hex()]
+            self.adv(ops, d + 1500)
+            yield F.Case("regflags%d" % k, ops, {"n": 0, "flags": [], "chflags": [], "intypes": [], "kind": "regflags", "d": d,
+                                                  "tags": ["kind:regflags"]})
 
     @staticmethod
     def adv(ops, ms):
@@ -163,6 +175,8 @@ class C06(F.Spec):
             yield t, evs, dict(out)
 
     def derive_model(self, case, raw):
+        if case.meta.get("kind") == "regflags" or any(o == "board mixed 0" for o in case.ops):
+            return "", []       # judged by the monitor only
         self.fill_meta(case)
         n = case.meta["n"]
         ops, exp = [], []
@@ -210,6 +224,22 @@ class C06(F.Spec):
         if rc != 0:
             return [F.Finding("crash", "implementation aborted (rc=%s): %s" % (rc, err[-900:]))]
         raw = case.meta.get("raw_impl") or []
+        if case.meta.get("kind") == "regflags" or any(o == "board mixed 0" for o in case.ops):
+            # pin levels over time (pin 3: channel 1, active high; pin 4: channel 2, active low)
+            ed = [(int(x.split()[3]), int(x.split()[1]), int(x.split()[2])) for g in raw for x in g if x.startswith("GPIO ") and len(x.split()) == 4]
+            lv = {3: 0, 4: 0}
+            for tm, pin, lvl in ed:
+                lv[pin] = lvl
+            fs = []
+            if not any(pin == 3 and lvl == 1 for tm, pin, lvl in ed):
+                return fs        # (the set-up did not run: nothing to judge)
+            if lv.get(3) != 1:
+                fs.append(F.Finding("output-not-last-command", "channel 1 (countdown capable) was switched on and then 'off for a duration': after the "
+                                    "duration it is still off (pin 3 = %s): the switch-back never came" % lv.get(3)))
+            if lv.get(4) != 1:       # active low: logical off = pin high
+                fs.append(F.Finding("output-not-last-command", "channel 2 (no countdown capability, active low) was switched 'off for a duration': "
+                                    "it has to stay off, pin 4 = %s" % lv.get(4)))
+            return fs
         self.fill_meta(case)
         me = case.meta
         n = me["n"]
